@@ -434,7 +434,9 @@ def answer (line : String) : String :=
       match parseHex h with
       | some bs =>
         let (r, rest', used) := decodeMemLimit l ty bs
-        showDec (r, rest') ++ " used=" ++ toString used
+        match r with
+        | .ok _ => showDec (r, rest') ++ " used=" ++ toString used
+        | _ => showDec (r, rest')
       | none => "bad-op"
     | _, _ => "bad-op"
   | "count" :: rest =>
